@@ -480,3 +480,38 @@ pub fn expand(v: &V) -> V {
         other => other.clone(),
     }
 }
+
+
+/// Calls into the library that are REFUSED after part of the work was done, made before the
+/// judged call of a case on the same thread: an encoder / decoder that keeps state between calls
+/// (a reused scratch buffer, a depth counter that is not restored on the error path) shows in the
+/// judged call.  0 = nothing.  Results are ignored; that these inputs are refused is judged elsewhere.
+pub fn disturb(kind: u8) {
+    use rml_amf0::Amf0Value as A;
+    let long = "a".repeat(70_000);
+    match kind % 6 {
+        0 => {}
+        1 => {
+            let _ = rml_amf0::serialize(&vec![A::Utf8String("onMetaData".to_string()), A::Utf8String(long)]);
+        }
+        2 => {
+            let mut m = HashMap::new();
+            m.insert("k".to_string(), A::StrictArray(vec![A::Number(1.0), A::Utf8String(long)]));
+            let _ = rml_amf0::serialize(&vec![A::Null, A::Object(m)]);
+        }
+        3 => {
+            let deep = to_lib(&V::Deep { depth: 200, seed: 7, wire: false, leaf: Box::new(V::Null) });
+            let _ = rml_amf0::serialize(&vec![A::Boolean(true), deep]);
+        }
+        4 => {
+            // a value, then an object cut inside its second property
+            let bytes = [0x05u8, 0x03, 0, 1, b'a', 0x05, 0, 2, b'b', b'c', 0x02, 0, 9, b'x'];
+            let _ = rml_amf0::deserialize(&mut std::io::Cursor::new(&bytes[..]));
+        }
+        _ => {
+            // nested arrays ending in an unknown marker
+            let bytes = [0x0Au8, 0, 0, 0, 2, 0x0A, 0, 0, 0, 1, 0x03, 0, 1, b'k', 0x0A, 0, 0, 0, 1, 0x77];
+            let _ = rml_amf0::deserialize(&mut std::io::Cursor::new(&bytes[..]));
+        }
+    }
+}
